@@ -269,7 +269,7 @@ func (cc *ClientConn) newStream(
 		})
 	}
 
-	return client.NewStream(
+	cs := client.NewStream(
 		ctx,
 		id,
 		method,
@@ -279,7 +279,13 @@ func (cc *ClientConn) newStream(
 		cc.destAddress,
 		cc.statsHandlers,
 		beginTime,
-	), nil
+	)
+	if !desc.ServerStreams {
+		if s, ok := cs.(interface{ SetSingleResponse() }); ok {
+			s.SetSingleResponse()
+		}
+	}
+	return cs, nil
 }
 
 func (cc *ClientConn) asStreamer(
